@@ -261,23 +261,35 @@ func (i ItemCollection) Equals(with Item) bool {
 	if !with.IsCollection() {
 		return false
 	}
-	if with.GetType() != CollectionOfItems {
+	if typ := with.GetType(); typ != CollectionOfItems && typ != CollectionOfIRIs {
 		return false
 	}
 	result := true
-	_ = OnItemCollection(with, func(w *ItemCollection) error {
+	err := OnItemCollection(with, func(w *ItemCollection) error {
 		if w.Count() != i.Count() {
 			result = false
 			return nil
 		}
 		for _, it := range i {
-			if !w.Contains(it.GetLink()) {
+			if IsNil(it) {
+				continue
+			}
+			// members are matched by their IRI; a member that has none can only be matched as a whole
+			if iri := it.GetLink(); len(iri) > 0 && !IsLink(it) {
+				if !w.Contains(iri) {
+					result = false
+					return nil
+				}
+			} else if !w.Contains(it) {
 				result = false
 				return nil
 			}
 		}
 		return nil
 	})
+	if err != nil {
+		result = false
+	}
 	return result
 }
 
